@@ -373,7 +373,7 @@ func runStateSetters(a *Analyzer, r *Results) {
 					continue // writing the height back unchanged (a "store both fields" helper) is not a height write
 				}
 				nh++
-				ev.Require("S7", props("C10", "C13"), "the height is written only when the new height is strictly above the current one", "", Lt(h, arg))
+				ev.Require("S7", props("C10", "C13", "C01"), "the height is written only when the new height is strictly above the current one", "", Lt(h, arg))
 				ev.Verdict("S7.value", props("C13"), "SetHeightAndResetView stores its argument", "", ev.Arg(0).Key() == arg.Key(), "stores "+PP(ev.Arg(0)))
 			}
 		}
@@ -535,7 +535,7 @@ func (ig *ingest) roundRules(e *Effect) {
 			ev.Verdict("U1", props("C14", "C13"), "a synced block starts a new round only if its height is at or above the current height", "", false, "cannot identify the synced block / first-leader flag among the arguments of "+e.Name)
 			break
 		}
-		ev.Require("U1", props("C14", "C13"), "a synced block starts a new round only if its height is at or above the current height", "", Le(k.SHeight, Call("blockheight.GetBlockHeight", blk)))
+		ev.Require("U1", props("C14", "C13", "C01", "C10"), "a synced block starts a new round only if its height is at or above the current height", "", Le(k.SHeight, Call("blockheight.GetBlockHeight", blk)))
 		ev.Verdict("U2", props("C14"), "a round entered by sync never lets this node be the first leader", "", first.Key() == tFalse.Key(), "canBeFirstLeader argument is "+PP(first))
 		// exactness: no stronger test on the accept path
 		var extra []string
@@ -1011,7 +1011,9 @@ func runShutdown(a *Analyzer, r *Results) {
 		for _, in := range fn.Blocks[0].Instrs {
 			if d, isD := in.(*ssa.Defer); isD {
 				if sc := d.Call.StaticCallee(); sc != nil && reachesFn(a, sc, "(*state.ViewContexts).Shutdown", map[*ssa.Function]bool{}) {
-					ok = true
+					// ... on every path of the deferred function: a conditional shutdown ("nothing is running, nothing to
+					// release") leaves contexts that are handed out later un-cancelled
+					ok = funcMustCall(a, sc, "(*state.ViewContexts).Shutdown", 0)
 				}
 				break
 			}
@@ -1041,6 +1043,46 @@ func runShutdown(a *Analyzer, r *Results) {
 		}
 		r.Check("Z8", props("C16", "C14"), "the public API hands its input to the main loop in a select with the caller's ctx.Done() (it cannot block forever)", shortName(fn), a.P.Pos(fn.Pos()), ok, "no select with ctx.Done()", "X")
 	}
+}
+
+// funcMustCall: every path through f (entry to return) calls the target function, directly or through a callee that must.
+func funcMustCall(a *Analyzer, f *ssa.Function, target string, depth int) bool {
+	if funcID(f) == target {
+		return true
+	}
+	if len(f.Blocks) == 0 || depth > 4 {
+		return false
+	}
+	seen := map[*ssa.BasicBlock]bool{f.Blocks[0]: true}
+	var walk func(b *ssa.BasicBlock) bool
+	walk = func(b *ssa.BasicBlock) bool {
+		for _, in := range b.Instrs {
+			if ci, ok := in.(ssa.CallInstruction); ok {
+				if _, isGo := in.(*ssa.Go); !isGo {
+					if sc := ci.Common().StaticCallee(); sc != nil && funcMustCall(a, sc, target, depth+1) {
+						return true
+					}
+				}
+			}
+			switch in.(type) {
+			case *ssa.Return:
+				return false
+			case *ssa.Panic:
+				return true
+			}
+		}
+		for _, s2 := range b.Succs {
+			if seen[s2] {
+				continue
+			}
+			seen[s2] = true
+			if !walk(s2) {
+				return false
+			}
+		}
+		return true
+	}
+	return walk(f.Blocks[0])
 }
 
 func reachesFn(a *Analyzer, f *ssa.Function, target string, seen map[*ssa.Function]bool) bool {
